@@ -265,7 +265,10 @@ INVALID = ["edges_not_increasing", "edges_single", "edges_equal", "rmin_ge_rmax"
 @st.composite
 def invalid_case(draw):
     p = draw(params_strategy())
-    return {"params": p, "invalid": draw(st.sampled_from(INVALID)), "x": draw(gen.floats(0.1, 2.0))}
+    ns = draw(st.integers(1, 4))
+    bad = draw(st.lists(st.booleans(), min_size=ns, max_size=ns))
+    bad[draw(st.integers(0, ns - 1))] = True  # which of the scales are invalid: any non-empty subset
+    return {"params": p, "invalid": draw(st.sampled_from(INVALID)), "x": draw(gen.floats(0.1, 2.0)), "bad": bad, "equal": draw(st.booleans())}
 
 
 def run_invalid(case):
@@ -288,7 +291,10 @@ def run_invalid(case):
             kw.pop(k, None)
         kw["edges"] = [x, x + 0.5, x + 0.5, x + 0.9]
     elif kind == "rmin_ge_rmax":
-        kw["rmin"], kw["rmax"] = [5.0 * x, 1.0], [2.0 * x, 3.0]
+        bad = case.get("bad", [True, False])
+        lo = [x * (i + 1) for i in range(len(bad))]
+        hi = [v * (1.0 if (b and case.get("equal")) else (0.5 if b else 3.0)) for v, b in zip(lo, bad)]
+        kw["rmin"], kw["rmax"] = (lo, hi) if len(bad) > 1 else (lo[0], hi[0])
     elif kind == "rmin_eq_rmax":
         kw["rmin"], kw["rmax"] = x, x
     elif kind == "length_mismatch":
